@@ -22,18 +22,22 @@ def r1(ctx):
     ctx.touch(fn)
     fields = []
     conds = {}
+    oth = fn.P(0) + '.'
     for b in sorted((bb for bb in fn.blocks.values() if bb.cond is not None), key=lambda bb: fn.line_of(bb.cond)):
         c = fn.effective_cond(b.id)
         v = fn.nodes[c]
         if v['k'] != 'BinaryOperator' or v['op'] not in ('<', '>', '<=', '>=', '==', '!='):
             raise AnalysisBroken('C17.R1: unexpected condition %s' % fn.key(c))
         l, r = fn.key(v['lhs']), fn.key(v['rhs'])
-        if not (l.startswith('this.') and r == 'other.' + l[5:]):
-            if r.startswith('this.') and l == 'other.' + r[5:]:
+        if not (l.startswith('this.') and r == oth + l[5:]):
+            if r.startswith('this.') and l == oth + r[5:]:
                 l, r = r, l
                 op = facts.CMP_MIRROR[v['op']]
+            elif {l.split('.')[0] + '.', r.split('.')[0] + '.'} == {'this.', oth}:
+                ctx.ob('C17.R1', fn, c, False, 'corresponding members', 'condition compares different members of the two messages: %s' % fn.key(c))
+                return
             else:
-                raise AnalysisBroken('C17.R1: condition compares non-corresponding members: %s' % fn.key(c))
+                raise AnalysisBroken('C17.R1: unexpected condition %s' % fn.key(c))
         else:
             op = v['op']
         f = l[5:]
@@ -49,7 +53,7 @@ def r1(ctx):
         v = fn.nodes[fn.strip(rv)]
         if v['k'] == 'BinaryOperator':
             l, rr = fn.key(v['lhs']), fn.key(v['rhs'])
-            if l.startswith('this.') and rr == 'other.' + l[5:]:
+            if l.startswith('this.') and rr == oth + l[5:]:
                 f = l[5:]
                 if f not in fields:
                     fields.append(f)
